@@ -6,7 +6,9 @@ package main
 import (
 	"flag"
 	"fmt"
+	"math/rand"
 	"reflect"
+	"runtime"
 	"strings"
 	"time"
 
@@ -26,7 +28,12 @@ type outcome struct {
 	bytes []byte
 	val   reflect.Value
 	rest  []byte
+	alloc uint64 // bytes allocated while the call ran (runtime.MemStats.TotalAlloc difference)
 }
+
+// allocBound is what a decoder may allocate for an input of n bytes: a constant plus a generous
+// factor per input byte (vectors of pointer-bearing structs cost far more memory than input).
+func allocBound(n int) uint64 { return 1<<20 + 512*uint64(n) }
 
 func classify(err error) string {
 	if err == nil {
@@ -44,6 +51,8 @@ func classify(err error) string {
 
 func guarded(f func() outcome) (o outcome) {
 	done := make(chan outcome, 1)
+	var before, after runtime.MemStats
+	runtime.ReadMemStats(&before)
 	go func() {
 		defer func() {
 			if r := recover(); r != nil {
@@ -54,6 +63,8 @@ func guarded(f func() outcome) (o outcome) {
 	}()
 	select {
 	case o = <-done:
+		runtime.ReadMemStats(&after)
+		o.alloc = after.TotalAlloc - before.TotalAlloc
 		return o
 	case <-time.After(5 * time.Second):
 		return outcome{class: "hang"}
@@ -80,9 +91,68 @@ func main() {
 	w := lib.NewWriter(header, 150)
 	defer w.Guard()
 	n := lib.Count(700, 12000)
-	g := &tlsgen.Gen{R: r}
+	g := &tlsgen.Gen{R: r, Edges: true}
 	hung := false
 
+	// targeted stream, run FIRST (a decoder that allocates what is declared may kill the process on
+	// the larger claims of the later streams; what was recorded before still counts): length prefixes of 3 and 4 bytes declaring far more (1 MiB .. 256 MiB) than
+	// the few bytes that follow: the decoder must refuse BEFORE it allocates what was declared
+	for i := 0; i < 24 && !hung; i++ {
+		width := 3 + i%2
+		max := uint64(1)<<(8*uint(width)) - 1
+		tag := fmt.Sprintf("maxlen:%d", max)
+		var t *tlsgen.Ty
+		inner := &tlsgen.Ty{Kind: "bytes"}
+		if i%3 == 2 {
+			inner = &tlsgen.Ty{Kind: "vec", Elem: &tlsgen.Ty{Kind: "u16"}}
+		}
+		asField := i%4 >= 2
+		if asField {
+			t = &tlsgen.Ty{Kind: "struct", Fields: []tlsgen.Field{{Name: "A", T: &tlsgen.Ty{Kind: "u8"}}, {Name: "B", Tag: tag, T: inner}}}
+			tag = ""
+		} else {
+			t = inner
+		}
+		body := make([]byte, r.Intn(9))
+		r.Read(body)
+		declared := uint64(1) << uint(20+r.Intn(9))
+		if declared > max {
+			declared = max - uint64(r.Intn(2))
+		}
+		declared &^= 1 // an even number of bytes: a whole number of u16 elements
+		var in []byte
+		if asField {
+			in = append(in, byte(r.Intn(256)))
+		}
+		for k := width - 1; k >= 0; k-- {
+			in = append(in, byte(declared>>(8*uint(k))))
+		}
+		in = append(in, body...)
+		dst := reflect.New(t.GoType())
+		po := guarded(func() outcome {
+			rest, err := tls.UnmarshalWithParams(in, dst.Interface(), tag)
+			return outcome{class: classify(err), rest: rest}
+		})
+		hung = hung || po.class == "hang"
+		pOK, pnote := true, ""
+		switch {
+		case po.class == "ok":
+			pOK, pnote = false, fmt.Sprintf("declared length %d accepted with only %d bytes of input", declared, len(body))
+		case po.class == "panic" || po.class == "hang":
+			pOK, pnote = false, fmt.Sprintf("Unmarshal %s on a %d-byte length prefix declaring %d for type %s", po.class, width, declared, t.String())
+		case po.alloc > allocBound(len(in)):
+			pOK, pnote = false, fmt.Sprintf("Unmarshal allocated %d bytes for an input of %d bytes whose length prefix declares %d (type %s)", po.alloc, len(in), declared, t.String())
+		}
+		w.Add(lib.Case{
+			Coq:    fmt.Sprintf("CParse %s %s %s (%s)", t.Coq(), tlsgen.Clauses(tag), lib.Bytes(in), coqClass(po.class)),
+			Input:  map[string]interface{}{"op": "unmarshal", "type": t.String(), "params": tag, "bytes_kind": "large-claim", "declared": fmt.Sprint(declared), "len": len(in)},
+			Impl:   map[string]interface{}{"class": po.class, "allocated": po.alloc},
+			PropOK: pOK, Note: pnote, Tags: []string{"parse:large-claim:" + strings.SplitN(po.class, ":", 2)[0]},
+		})
+	}
+	// targeted stream: every field width 1..8, values at and above the width boundary, against a
+	// hand-written big-endian reference
+	widthStream(w, r, &hung)
 	for i := 0; i < n && !hung; i++ {
 		g.Malformed = 0
 		wellformed := true
@@ -93,6 +163,9 @@ func main() {
 		t, tag := g.Type(1+r.Intn(4), true)
 		if i%3 == 0 {
 			t, tag = g.Struct(1+r.Intn(3)), ""
+		}
+		if i%7 == 5 {
+			t, tag = g.MultiSel(r.Intn(2)), "" // several selectors with interleaved arms
 		}
 		if i%7 == 3 {
 			t, tag = g.VariantVec(r.Intn(2)) // vectors of variant structs: repeated selectors in consecutive elements
@@ -194,6 +267,9 @@ func main() {
 			} else if po.class == "panic" || po.class == "hang" {
 				pOK, pnote = false, "Unmarshal "+po.class+" for type "+t.String()
 			}
+			if pOK && po.alloc > allocBound(len(in)) {
+				pOK, pnote = false, fmt.Sprintf("Unmarshal allocated %d bytes for an input of %d bytes (%s) for type %s", po.alloc, len(in), po.class, t.String())
+			}
 			w.Add(lib.Case{
 				Coq:    fmt.Sprintf("CParse %s %s %s (%s)", t.Coq(), params, lib.Bytes(in), pobs),
 				Input:  map[string]interface{}{"op": "unmarshal", "type": t.String(), "params": tag, "bytes_kind": kinds[j], "len": len(in)},
@@ -257,6 +333,330 @@ func main() {
 	}
 	w.Close()
 	fmt.Printf("c09: wrote %d cases (hang seen: %v)\n", w.Len(), hung)
+}
+
+// be is the reference encoding of an n-octet unsigned field: the n low octets of x, most significant first.
+func be(x uint64, n int) []byte {
+	out := make([]byte, n)
+	for k := n - 1; k >= 0; k-- {
+		out[k] = byte(x)
+		x >>= 8
+	}
+	return out
+}
+
+// fits: x can be written in n octets (n in 1..8).
+func fits(x uint64, n int) bool { return n >= 8 || x>>(8*uint(n)) == 0 }
+
+// widthStream: for EVERY width n = 1..8 of an enum (size:n, maxval:N whose octet count is n: the
+// smallest and the largest such N and a random one) and every placement (top level with parameters, a
+// struct field between fixed-width neighbours, a selector with its arms, the element of a vector), the
+// values around 2^(8n) (tlsgen.WidthEdges: 2^(8n)-1, 2^(8n), 2^(8n)+1, a non-zero top octet of the uint64,
+// ...).  The oracle is a hand-written reference, not the codec: a value has an encoding exactly when it
+// fits in n octets, the encoding is its n low octets big-endian between the neighbours' octets, and that
+// encoding decodes to the value with nothing left over.  A value that does not fit must be refused by
+// Marshal: no byte string decodes to it, so an accepted one cannot come back (decode(encode(v)) != v).
+// The same is done for length prefixes (maxlen:N of every octet count): the lengths N-1, N, N+1 with real
+// bodies where that is affordable (up to 2^16+1 octets; above 300 in the thorough tier), and declared lengths N, N+1, 2^(8n)-1 on the decoding side.
+func widthStream(w *lib.Writer, r *rand.Rand, hung *bool) {
+	u8, u16, enum := &tlsgen.Ty{Kind: "u8"}, &tlsgen.Ty{Kind: "u16"}, &tlsgen.Ty{Kind: "enum"}
+	place := 0
+	for n := 1; n <= 8 && !*hung; n++ {
+		mask := ^uint64(0)
+		if n < 8 {
+			mask = uint64(1)<<(8*uint(n)) - 1
+		}
+		lo := uint64(1)
+		if n > 1 {
+			lo = uint64(1) << (8 * uint(n-1))
+		}
+		mid := lo + uint64(r.Int63n(int64((mask-lo)>>1)+1))
+		tags := []string{fmt.Sprintf("size:%d", n), fmt.Sprintf("maxval:%d", mask), fmt.Sprintf("maxval:%d", lo), fmt.Sprintf("maxval:%d", mid)}
+		for _, etag := range tags {
+			fit, over := tlsgen.WidthEdges(n, r)
+			for _, x := range append(append([]uint64{}, fit...), over...) {
+				if *hung {
+					break
+				}
+				place++
+				xin := x & mask // what n octets can say of x: the value that the reference encoding decodes to
+				a, b := byte(r.Intn(256)), uint16(r.Intn(65536))
+				// build (type, parameters, value holding x, reference encoding of xin, value holding xin)
+				var t *tlsgen.Ty
+				params, pname := "", ""
+				var mk func(x uint64) reflect.Value
+				var ref []byte
+				switch place % 4 {
+				case 0:
+					pname, t, params = "top", enum, etag
+					mk = func(x uint64) reflect.Value {
+						v := reflect.New(t.GoType()).Elem()
+						v.SetUint(x)
+						return v
+					}
+					ref = be(xin, n)
+				case 1:
+					pname = "field"
+					t = &tlsgen.Ty{Kind: "struct", Fields: []tlsgen.Field{{Name: "A", T: u8}, {Name: "E", Tag: etag, T: enum}, {Name: "B", T: u16}}}
+					mk = func(x uint64) reflect.Value {
+						v := reflect.New(t.GoType()).Elem()
+						v.Field(0).SetUint(uint64(a))
+						v.Field(1).SetUint(x)
+						v.Field(2).SetUint(uint64(b))
+						return v
+					}
+					ref = append(append([]byte{a}, be(xin, n)...), be(uint64(b), 2)...)
+				case 2:
+					// the arm X belongs to what n octets can say of x; when x does not fit, a second arm Y
+					// belongs to x itself and is the one the value fills in
+					pname = "selector"
+					other := xin ^ 1
+					if x != xin {
+						other = x
+					}
+					t = &tlsgen.Ty{Kind: "struct", Fields: []tlsgen.Field{{Name: "E", Tag: etag, T: enum},
+						{Name: "X", Tag: fmt.Sprintf("selector:E,val:%d", xin), Ptr: true, T: u8},
+						{Name: "Y", Tag: fmt.Sprintf("selector:E,val:%d", other), Ptr: true, T: u8}}}
+					mk = func(x uint64) reflect.Value {
+						v := reflect.New(t.GoType()).Elem()
+						v.Field(0).SetUint(x)
+						p := reflect.New(u8.GoType())
+						p.Elem().SetUint(uint64(a))
+						if x == xin {
+							v.Field(1).Set(p)
+						} else {
+							v.Field(2).Set(p)
+						}
+						return v
+					}
+					ref = append(be(xin, n), a)
+				default:
+					pname = "element"
+					el := &tlsgen.Ty{Kind: "struct", Fields: []tlsgen.Field{{Name: "E", Tag: etag, T: enum}, {Name: "C", T: u8}}}
+					t, params = &tlsgen.Ty{Kind: "vec", Elem: el}, "maxlen:255"
+					mk = func(x uint64) reflect.Value {
+						v := reflect.MakeSlice(t.GoType(), 2, 2)
+						v.Index(0).Field(0).SetUint(uint64(b) & mask)
+						v.Index(0).Field(1).SetUint(uint64(a))
+						v.Index(1).Field(0).SetUint(x)
+						v.Index(1).Field(1).SetUint(uint64(a) ^ 0xff)
+						return v
+					}
+					ref = append([]byte{byte(2 * (n + 1))}, be(uint64(b)&mask, n)...)
+					ref = append(append(append(ref, a), be(xin, n)...), a^0xff)
+				}
+				gt := t.GoType()
+				val := mk(x)
+				mo := guarded(func() outcome {
+					bs, err := tls.MarshalWithParams(val.Interface(), params)
+					return outcome{class: classify(err), bytes: bs}
+				})
+				*hung = *hung || mo.class == "hang"
+				obs := coqClass(mo.class)
+				pOK, note := true, ""
+				desc := fmt.Sprintf("%d (0x%x) in the %d-octet enum `%s` (%s) of type %s", x, x, n, etag, pname, t.String())
+				switch {
+				case mo.class == "panic" || mo.class == "hang":
+					pOK, note = false, "Marshal "+mo.class+" on value "+desc
+				case mo.class == "ok":
+					obs = "Ok " + lib.Bytes(mo.bytes)
+					if !fits(x, n) {
+						back := reflect.New(gt)
+						po := guarded(func() outcome {
+							rest, err := tls.UnmarshalWithParams(mo.bytes, back.Interface(), params)
+							return outcome{class: classify(err), rest: rest}
+						})
+						pOK, note = false, fmt.Sprintf("Marshal accepts value %s, which %d octets cannot hold; decoding the result (%s) gives back a different value: %v", desc, n, po.class, normalize(back.Elem()))
+					} else if string(mo.bytes) != string(ref) {
+						pOK, note = false, fmt.Sprintf("Marshal of value %s gives %x, the encoding is %x", desc, mo.bytes, ref)
+					}
+				case fits(x, n):
+					pOK, note = false, fmt.Sprintf("Marshal refuses (%s) value %s, which fits", mo.class, desc)
+				}
+				w.Add(lib.Case{
+					Coq:    fmt.Sprintf("CMarshal %s %s %s (%s)", t.Coq(), tlsgen.Clauses(params), tlsgen.ValCoq(t, val), obs),
+					Input:  map[string]interface{}{"op": "marshal", "type": t.String(), "params": params, "stream": "width", "width": n, "enum_tag": etag, "placement": pname, "value": fmt.Sprint(x), "fits": fits(x, n)},
+					Impl:   map[string]interface{}{"class": mo.class, "bytes": fmt.Sprintf("%x", mo.bytes)},
+					PropOK: pOK, Note: note,
+					Tags: []string{"marshal:width:" + strings.SplitN(mo.class, ":", 2)[0], fmt.Sprintf("width=%d:fits=%v", n, fits(x, n)), "width:" + pname},
+				})
+				// decoding side: the reference encoding of xin (a value that fits), with or without an octet after it
+				in := append([]byte{}, ref...)
+				if place%3 == 0 {
+					in = append(in, byte(r.Intn(256)))
+				}
+				dst := reflect.New(gt)
+				po := guarded(func() outcome {
+					rest, err := tls.UnmarshalWithParams(in, dst.Interface(), params)
+					return outcome{class: classify(err), rest: rest}
+				})
+				*hung = *hung || po.class == "hang"
+				pobs := coqClass(po.class)
+				pOK, note = true, ""
+				switch {
+				case po.class == "panic" || po.class == "hang":
+					pOK, note = false, fmt.Sprintf("Unmarshal %s on %x for type %s", po.class, in, t.String())
+				case po.class != "ok":
+					pOK, note = false, fmt.Sprintf("Unmarshal refuses (%s) %x, the encoding of %d in the %d-octet enum `%s` (%s) of type %s", po.class, in, xin, n, etag, pname, t.String())
+				default:
+					pobs = fmt.Sprintf("Ok (%s, %s)", tlsgen.ValCoq(t, dst.Elem()), lib.Bytes(po.rest))
+					if string(po.rest) != string(in[len(ref):]) || !reflect.DeepEqual(normalize(dst.Elem()), normalize(mk(xin))) {
+						pOK, note = false, fmt.Sprintf("Unmarshal of %x, the encoding of %d in the %d-octet enum `%s` (%s) of type %s, gives %v and leaves %x", in, xin, n, etag, pname, t.String(), normalize(dst.Elem()), po.rest)
+					}
+				}
+				w.Add(lib.Case{
+					Coq:    fmt.Sprintf("CParse %s %s %s (%s)", t.Coq(), tlsgen.Clauses(params), lib.Bytes(in), pobs),
+					Input:  map[string]interface{}{"op": "unmarshal", "type": t.String(), "params": params, "bytes_kind": "width", "width": n, "enum_tag": etag, "placement": pname, "value": fmt.Sprint(xin), "len": len(in)},
+					Impl:   map[string]interface{}{"class": po.class, "rest": len(po.rest)},
+					PropOK: pOK, Note: note,
+					Tags: []string{"parse:width:" + strings.SplitN(po.class, ":", 2)[0], "width:" + pname},
+				})
+			}
+		}
+		// length prefixes of n octets: maxlen:N with N the smallest and the largest n-octet number
+		for _, max := range []uint64{lo, mask} {
+			ltag := fmt.Sprintf("maxlen:%d", max)
+			if max > 2 && r.Intn(2) == 0 {
+				ltag = fmt.Sprintf("minlen:2,maxlen:%d", max)
+			}
+			min := uint64(0)
+			if strings.HasPrefix(ltag, "minlen:2") {
+				min = 2
+			}
+			asField := r.Intn(2) == 0
+			t, params := &tlsgen.Ty{Kind: "bytes"}, ltag
+			if asField {
+				t = &tlsgen.Ty{Kind: "struct", Fields: []tlsgen.Field{{Name: "A", T: u8}, {Name: "L", Tag: ltag, T: &tlsgen.Ty{Kind: "bytes"}}, {Name: "B", T: u8}}}
+				params = ""
+			}
+			gt := t.GoType()
+			// encoding side, with real bodies (up to 2^16+1 octets; the largest ones once per run only)
+			lens := []uint64{min, max - 1, max, max + 1}
+			if min > 0 {
+				lens = append(lens, min-1)
+			}
+			for _, l := range lens {
+				// bodies above 300 octets (the 2-octet boundary) in the thorough tier only: a 64 KiB literal costs
+				// the Coq front end some ten seconds
+				if l > 1<<16+1 || (l > 300 && lib.Tier() != "thorough") || *hung {
+					continue
+				}
+				body := make([]byte, l)
+				fill := byte(r.Intn(256))
+				for k := range body {
+					body[k] = fill + byte(k)
+				}
+				val := reflect.New(gt).Elem()
+				ref := append(be(l, n), body...)
+				if asField {
+					val.Field(0).SetUint(7)
+					val.Field(1).SetBytes(body)
+					val.Field(2).SetUint(9)
+					ref = append(append([]byte{7}, ref...), 9)
+				} else {
+					val.SetBytes(body)
+				}
+				inRange := l >= min && l <= max
+				mo := guarded(func() outcome {
+					bs, err := tls.MarshalWithParams(val.Interface(), params)
+					return outcome{class: classify(err), bytes: bs}
+				})
+				*hung = *hung || mo.class == "hang"
+				obs := coqClass(mo.class)
+				pOK, note := true, ""
+				desc := fmt.Sprintf("a vector of %d octets in `%s` (%d-octet length prefix) of type %s", l, ltag, n, t.String())
+				switch {
+				case mo.class == "panic" || mo.class == "hang":
+					pOK, note = false, "Marshal "+mo.class+" on "+desc
+				case mo.class == "ok":
+					obs = "Ok " + lib.Bytes(mo.bytes)
+					if !inRange {
+						pOK, note = false, "Marshal accepts "+desc+", outside the declared range"
+					} else if string(mo.bytes) != string(ref) {
+						pOK, note = false, "Marshal of "+desc+" is not the length prefix followed by the body"
+					}
+				case inRange:
+					pOK, note = false, fmt.Sprintf("Marshal refuses (%s) %s, inside the declared range", mo.class, desc)
+				}
+				w.Add(lib.Case{
+					Coq:    fmt.Sprintf("CMarshal %s %s %s (%s)", t.Coq(), tlsgen.Clauses(params), tlsgen.ValCoq(t, val), obs),
+					Input:  map[string]interface{}{"op": "marshal", "type": t.String(), "params": params, "stream": "width-len", "width": n, "len_tag": ltag, "length": l, "in_range": inRange},
+					Impl:   map[string]interface{}{"class": mo.class, "len": len(mo.bytes)},
+					PropOK: pOK, Note: note,
+					Tags: []string{"marshal:width-len:" + strings.SplitN(mo.class, ":", 2)[0], fmt.Sprintf("lenwidth=%d:in_range=%v", n, inRange)},
+				})
+				if !inRange && l < 1<<(8*uint(n)) {
+					// decoding side: the same octets must be refused as well
+					dst := reflect.New(gt)
+					po := guarded(func() outcome {
+						rest, err := tls.UnmarshalWithParams(ref, dst.Interface(), params)
+						return outcome{class: classify(err), rest: rest}
+					})
+					*hung = *hung || po.class == "hang"
+					pobs := coqClass(po.class)
+					pOK, note = true, ""
+					if po.class == "ok" {
+						pobs = fmt.Sprintf("Ok (%s, %s)", tlsgen.ValCoq(t, dst.Elem()), lib.Bytes(po.rest))
+						pOK, note = false, "Unmarshal accepts "+desc+", outside the declared range"
+					} else if po.class == "panic" || po.class == "hang" {
+						pOK, note = false, "Unmarshal "+po.class+" on "+desc
+					}
+					w.Add(lib.Case{
+						Coq:    fmt.Sprintf("CParse %s %s %s (%s)", t.Coq(), tlsgen.Clauses(params), lib.Bytes(ref), pobs),
+						Input:  map[string]interface{}{"op": "unmarshal", "type": t.String(), "params": params, "bytes_kind": "width-len", "width": n, "len_tag": ltag, "length": l, "len": len(ref)},
+						Impl:   map[string]interface{}{"class": po.class, "rest": len(po.rest)},
+						PropOK: pOK, Note: note, Tags: []string{"parse:width-len:" + strings.SplitN(po.class, ":", 2)[0]},
+					})
+				}
+			}
+			// decoding side, declared lengths around N and at the top of the width over a short body
+			for _, declared := range []uint64{max, max + 1, mask, mask - 1} {
+				if !fits(declared, n) || *hung {
+					continue
+				}
+				body := make([]byte, 1+r.Intn(4))
+				r.Read(body)
+				in := append(be(declared, n), body...)
+				if asField {
+					in = append([]byte{7}, in...)
+				}
+				dst := reflect.New(gt)
+				po := guarded(func() outcome {
+					rest, err := tls.UnmarshalWithParams(in, dst.Interface(), params)
+					return outcome{class: classify(err), rest: rest}
+				})
+				*hung = *hung || po.class == "hang"
+				pobs := coqClass(po.class)
+				pOK, note := true, ""
+				// the body holds the declared octets (and, in a struct, the octet of field B after them)
+				avail := uint64(len(body))
+				if asField {
+					avail--
+				}
+				enough := declared <= avail
+				switch {
+				case po.class == "panic" || po.class == "hang":
+					pOK, note = false, fmt.Sprintf("Unmarshal %s on a %d-octet length prefix declaring %d for `%s` of type %s", po.class, n, declared, ltag, t.String())
+				case po.class == "ok":
+					pobs = fmt.Sprintf("Ok (%s, %s)", tlsgen.ValCoq(t, dst.Elem()), lib.Bytes(po.rest))
+					if declared > max || declared < min || !enough {
+						pOK, note = false, fmt.Sprintf("Unmarshal accepts a %d-octet length prefix declaring %d over %d octets for `%s` of type %s", n, declared, len(body), ltag, t.String())
+					}
+				case declared <= max && declared >= min && enough:
+					pOK, note = false, fmt.Sprintf("Unmarshal refuses (%s) a %d-octet length prefix declaring %d over %d octets for `%s` of type %s", po.class, n, declared, len(body), ltag, t.String())
+				}
+				if pOK && po.alloc > allocBound(len(in)) {
+					pOK, note = false, fmt.Sprintf("Unmarshal allocated %d bytes for an input of %d bytes whose length prefix declares %d (type %s)", po.alloc, len(in), declared, t.String())
+				}
+				w.Add(lib.Case{
+					Coq:    fmt.Sprintf("CParse %s %s %s (%s)", t.Coq(), tlsgen.Clauses(params), lib.Bytes(in), pobs),
+					Input:  map[string]interface{}{"op": "unmarshal", "type": t.String(), "params": params, "bytes_kind": "width-declared", "width": n, "len_tag": ltag, "declared": fmt.Sprint(declared), "len": len(in)},
+					Impl:   map[string]interface{}{"class": po.class, "rest": len(po.rest)},
+					PropOK: pOK, Note: note, Tags: []string{"parse:width-declared:" + strings.SplitN(po.class, ":", 2)[0]},
+				})
+			}
+		}
+	}
 }
 
 // normalize maps nil and empty slices to one form (Unmarshal produces empty non-nil slices).
